@@ -155,11 +155,8 @@ FamTypes ==
 FieldVariants ==
   { FM(t, n, "", o[1], o[2], o[3], o[4], o[5], o[6], "")
     : t \in KnownFieldTypes, n \in {"", "x"},
-      o \in (IF Thorough
-             THEN {<<TRUE, TRUE, TRUE, TRUE, TRUE, FALSE>>, <<FALSE, FALSE, FALSE, FALSE, FALSE, FALSE>>,
-                   <<TRUE, FALSE, FALSE, TRUE, FALSE, TRUE>>, <<FALSE, TRUE, TRUE, FALSE, TRUE, FALSE>>}
-             ELSE {<<TRUE, TRUE, TRUE, TRUE, TRUE, FALSE>>, <<TRUE, FALSE, FALSE, TRUE, FALSE, TRUE>>,
-                   <<FALSE, TRUE, TRUE, FALSE, TRUE, FALSE>>}) }
+      o \in {<<TRUE, TRUE, TRUE, TRUE, TRUE, FALSE>>, <<FALSE, FALSE, FALSE, FALSE, FALSE, FALSE>>,
+             <<TRUE, FALSE, FALSE, TRUE, FALSE, TRUE>>, <<FALSE, TRUE, TRUE, FALSE, TRUE, FALSE>>} }
 FamMulti ==
   { Case("multi",
          [DefaultIM EXCEPT !.def.props = <<P("p", [DefaultDM EXCEPT !.props =
